@@ -665,60 +665,104 @@ struct VariantOut {
     trace: Vec<String>,
 }
 
+/// Variant runs are self-contained: no reference model, CAS arguments are resolved from what the
+/// run's own sweeps observed (the same in every variant as long as the effects are the same).
 fn run_variant(prog: &[Cmd], keys: &[Vec<u8>], limit: u32, kind: StoreKind, t0: u64) -> VariantOut {
     let stack = Stack::new(kind, t0);
     let mut conn = Conn::new(stack.memc.clone(), limit);
-    let mut m = Model::new(keys.len(), t0);
     let mut texts = ErrTexts::default();
     let mut out = VariantOut { sweeps: vec![], errors: vec![], hits: vec![], viol: None, trace: vec![] };
     let mut prev: Vec<u64> = vec![0; keys.len()];
+    let mut seen: Vec<Vec<u64>> = vec![vec![]; keys.len()];
     for (i, cmd) in prog.iter().enumerate() {
         if let Cmd::Advance(d) = cmd {
-            m.now = stack.timer.advance(*d);
+            stack.timer.advance(*d);
             out.errors.push(None);
             out.hits.push(None);
         } else {
-            match exec(&mut conn, &mut m, &mut texts, keys, cmd, i as u32, &mut out.trace) {
-                Ok((_, r)) => {
-                    out.errors.push(r.as_ref().filter(|r| r.status != st::OK).map(|r| (r.status, r.value.clone())));
-                    out.hits.push(
-                        r.as_ref()
-                            .filter(|r| r.status == st::OK && matches!(cmd, Cmd::Get { .. }))
-                            .map(|r| (r.extras.clone(), r.value.clone())),
-                    );
+            let cas = match (cmd.key(), cmd.cas_arg()) {
+                (Some(k), Some(a)) => match a {
+                    CasArg::Zero => 0,
+                    CasArg::Raw(x) => *x,
+                    CasArg::Current => {
+                        if prev[k] != 0 {
+                            prev[k]
+                        } else {
+                            7
+                        }
+                    }
+                    CasArg::Plus1 => prev[k].wrapping_add(1).max(1),
+                    CasArg::Minus1 => prev[k].wrapping_sub(1).max(1),
+                    CasArg::Stale(n) => {
+                        let old: Vec<u64> = seen[k].iter().copied().filter(|t| *t != prev[k]).collect();
+                        if old.is_empty() {
+                            0xdead
+                        } else {
+                            old[old.len() - 1 - (n % old.len())]
+                        }
+                    }
+                },
+                _ => 0,
+            };
+            let frame = cmd.frame(keys, cas, i as u32);
+            let fo = match catch_unwind(AssertUnwindSafe(|| conn.feed(&frame.encode()))) {
+                Ok(o) => o,
+                Err(e) => {
+                    out.viol = Some(Viol::new(&["C10", "C19"], "panic", format!("{} panicked: {}", cmd.brief(), panic_text(&e))));
+                    return out;
                 }
-                Err(v) => {
-                    out.viol = Some(v);
+            };
+            let rs = match wire::parse_all(&fo.bytes) {
+                Ok(r) => r,
+                Err(e) => {
+                    out.viol = Some(Viol::new(&["C11", "C19"], "resp-grammar", format!("{}: {}", cmd.brief(), e)));
+                    return out;
+                }
+            };
+            let r = rs.into_iter().next();
+            out.trace.push(format!("{} cas={} -> {}", cmd.brief(), cas, r.as_ref().map(|r| r.brief()).unwrap_or_else(|| "(silent)".into())));
+            if let Some(r) = &r {
+                if let Err(e) = wire::check_resp(&ReqView::of(&frame), r, &mut texts) {
+                    out.viol = Some(Viol::new(&["C11", "C19"], "resp-shape", format!("{}: {}", cmd.brief(), e)));
                     return out;
                 }
             }
-        }
-        let mut tr = vec![];
-        match sweep(&mut conn, &mut m, &mut texts, keys, Some(cmd), &mut tr) {
-            Ok(rows) => {
-                let row: Vec<SweepRow> = rows
-                    .iter()
-                    .enumerate()
-                    .map(|(k, r)| match r {
-                        Some(r) => {
-                            let ch = r.cas != prev[k];
-                            prev[k] = r.cas;
-                            SweepRow { hit: true, value: r.value.clone(), flags: r.flags().unwrap_or(0), cas_changed: ch }
-                        }
-                        None => {
-                            prev[k] = 0;
-                            SweepRow { hit: false, value: vec![], flags: 0, cas_changed: false }
-                        }
-                    })
-                    .collect();
-                out.sweeps.push(row);
-            }
-            Err(v) => {
-                out.trace.extend(tr);
-                out.viol = Some(v);
+            // response presence rules of the quiet variants
+            let is_get = matches!(cmd, Cmd::Get { .. });
+            let presence = match (&r, cmd.quiet()) {
+                (None, false) => Some("a loud command got no response"),
+                (Some(r), true) if !is_get && r.status == st::OK => Some("a quiet mutation answered on success"),
+                (Some(r), true) if is_get && r.status == st::NOT_FOUND => Some("a quiet get answered on a miss"),
+                _ => None,
+            };
+            if let Some(what) = presence {
+                out.viol = Some(Viol::new(&["C19", "C12"], "quiet-presence", format!("{}: {}", cmd.brief(), what)));
                 return out;
             }
+            out.errors.push(r.as_ref().filter(|r| r.status != st::OK).map(|r| (r.status, r.value.clone())));
+            out.hits.push(r.as_ref().filter(|r| r.status == st::OK && is_get).map(|r| (r.extras.clone(), r.value.clone())));
         }
+        // sweep with loud gets
+        let mut row = Vec::with_capacity(keys.len());
+        for (k, key) in keys.iter().enumerate() {
+            let fo = conn.feed(&wire::get(op::GET, key, 0x5eed).encode());
+            let r = wire::parse_all(&fo.bytes).ok().and_then(|v| v.into_iter().next()).filter(|r| r.status == st::OK);
+            match r {
+                Some(r) => {
+                    let ch = r.cas != prev[k];
+                    prev[k] = r.cas;
+                    if seen[k].last() != Some(&r.cas) {
+                        seen[k].push(r.cas);
+                    }
+                    row.push(SweepRow { hit: true, value: r.value.clone(), flags: r.flags().unwrap_or(0), cas_changed: ch });
+                }
+                None => {
+                    prev[k] = 0;
+                    row.push(SweepRow { hit: false, value: vec![], flags: 0, cas_changed: false });
+                }
+            }
+        }
+        out.sweeps.push(row);
     }
     out
 }
